@@ -236,7 +236,10 @@ def build(m):
             ioffs[li] = pos
             isizes[li] = len(L["ibuf"])
             pos += len(L["ibuf"])
-            lodrecs += struct.pack("<HHffHHHHHHHHIII4xIIII", mi, len(lods[li]), 0.0, 0.0, 0, 0, 0, 0, 0, 0, 0, 0, 0, ioffs[li], 0, vsizes[li], isizes[li], voffs[li], ioffs[li])
+            # the LOD record repeats the section offsets of the file header; a reader goes by the file header, so the copies may be stale
+            jv, ji = (m["lodrec_junk"][li] if m.get("lodrec_junk") else (voffs[li], ioffs[li]))
+            jv = voffs[li] if jv is None else jv
+            lodrecs += struct.pack("<HHffHHHHHHHHIII4xIIII", mi, len(lods[li]), 0.0, 0.0, 0, 0, 0, 0, 0, 0, 0, 0, 0, ioffs[li], 0, vsizes[li], isizes[li], jv, ji)
             mi += len(lods[li])
         else:
             lodrecs += struct.pack("<HHffHHHHHHHHIII4xIIII", 0, 0, 0.0, 0.0, 0, 0, 0, 0, 0, 0, 0, 0, 0, 0, 0, 0, 0, 0, 0)
